@@ -44,7 +44,7 @@ ASSUMPTIONS = [
 BUDGET = {"quick": 900, "thorough": 3600}
 
 
-def states(tier, seed):
+def _states_base(tier, seed):
     out = []
     hv = ["total", "charm", "bottom"] if tier == "quick" else ["light", "total", "charm", "bottom", "top"]
     schemes = ["ZM-VFNS", "FFNS3", "FFNS4", "FFN03", "FFN04"] if tier == "quick" else ["ZM-VFNS", "FFNS3", "FFNS4", "FFNS5", "FFN03", "FFN04", "FFN05", "FONLL-FFNS4", "FONLL-FFN03"]
@@ -174,6 +174,22 @@ def _with(a, nf):
     b = a.copy()
     b[0] = nf
     return b
+
+
+def states(tier, seed):
+    """quick = the full base lattice; thorough = base lattice + the deep extension."""
+    base = _states_base("thorough", seed)
+    if tier == "quick":
+        return base
+    seen = {digest(s) for s in base}
+    return base + [s for s in _states_deep(seed) if digest(s) not in seen]
+
+
+def _states_deep(seed):
+    out = []
+    for k, h, p, sc, q2, x in itertools.product(SF_KINDS, ["light", "total", "charm", "bottom", "top"], ["NC", "CC", "EM"], ["ZM-VFNS", "FFNS3", "FFNS4", "FFNS5", "FFN03", "FFN04", "FFN05", "FONLL-FFNS4", "FONLL-FFN03"], [1.2, 2.0, 3.0, 7.0, 15.0, 30.0, 70.0, 300.0, 700.0, 2.3e3, 2.3e4, 2.3e5, 1e6], [1e-3, 0.01, 0.1, 0.3, 0.6]):
+        out.append({"t": "harvest", "kind": k, "heavyness": h, "process": p, "scheme": sc, "Q2": q2, "x": x})
+    return out
 
 
 def execute(st):
